@@ -99,6 +99,14 @@ def shaped_inputs(tier):
     shaped += [K.ladder(L, w, tw) for L in (3, 5, 8) for w in (2, 3) for tw in (True, False)]
     shaped += [K.caterpillar(n, d) for n in (6, 10, 16) for d in ("out", "in")] + [K.binary_tree(k, d) for k in (3, 4) for d in ("out", "in")]
     shaped += [K.grid(w, h) for w in (2, 3, 4) for h in (2, 3, 4)] + [K.bipartite(a, b) for a in (2, 3, 4) for b in (2, 3, 4)]
+    # paths of different lengths between two nodes (+ pendant leaves), many edge orders: stretched edges between balanced nodes
+    prng = random.Random(4711)
+    for _ in range(250 if tier == "quick" else 2500):
+        k = prng.randint(2, 4)
+        lens = [prng.randint(0, 6) for _ in range(k)]
+        if max(lens) - min(lens) < 2:
+            lens[0] = max(lens) + 2
+        shaped.append(K.parallel_paths(prng, lens, pendants=prng.randint(0, 4)))
     return shaped
 
 
@@ -108,12 +116,12 @@ def fam_E(tier):
 
 def c02_cases(tier, rng):
     combos = grid(p1=K.P1S, p2=K.P2S, p4=["sink", "valign"], p5=["poly", "noop", "straight"],
-                  size=["none", "fixed", "all", "some", "nomap", "fixed+some"], virt=[0, 1])
+                  size=["none", "fixed", "all", "some", "nomap", "fixed+some", "fixed+zero", "fixed+all"], pat=["het", "het2"], virt=[0, 1])
     inputs = [(n, e) for n, e, _ in K.family(fam_E(tier))]
     for (n, e), cb in rotate(inputs, combos, 4 if tier == "quick" else 6, rng):
         yield apply(n, e, cb)
     combos2 = grid(p1=K.P1S, p2=K.P2S, p4=K.P4_ALL, p5=["poly", "ortho", "straight", "noop", "splines"],
-                   size=["none", "fixed", "all", "some", "fixed+some"], virt=[0, 1])
+                   size=["none", "fixed", "all", "some", "fixed+some", "fixed+zero"], pat=["het", "het2"], virt=[0, 1])
     rnd = random_inputs(rng, 1500 if tier == "quick" else 20000, 4, 14)
     for (n, e), cb in rotate(rnd, combos2, 1, rng):
         yield apply(n, e, cb)
@@ -134,6 +142,22 @@ def c03_cases(tier, rng):
         yield apply(n, e, cb)
     for (n, e), cb in rotate(shaped_inputs(tier), combos, 4, rng):
         yield apply(n, e, cb)
+    # edges stretched between two balanced nodes (what the balancing step of the network simplex works on)
+    for i in range(1500 if tier == "quick" else 15000):
+        n, e = K.stretched(rng)
+        yield apply(n, e, dict(p1=K.P1S[i % 3], p2="ns", p4="valign", p5="straight", size="fixed", ls=4))
+
+
+def nspos_small_budget(tier, rng, count, extra, simple=False):
+    """the network-simplex positioner with a pivot budget it actually exhausts (thoroughness 1-2 x number of nodes; the auxiliary
+    graph needs 1-2 pivots per node): the run ends on the budget, sometimes exactly with its last pivot, and the balancing step
+    works on whatever tree is there"""
+    kw = dict(simple=True, loop_rate=0) if simple else dict(loop_rate=0.02)
+    for i, (n, e) in enumerate(random_inputs(rng, count, 5 if simple else 4, 9, density=1.4, **kw)):
+        cb = dict(p1=K.P1S[i % 3], p2=K.P2S[i % 2], p4="nspos", p5="poly", size=["fixed", "all"][i % 2], pat="odd", ns=[2, 1, 10][i % 3],
+                  thor=[1, 1, 2, 1, 3][i % 5])
+        cb.update(extra)
+        yield apply(n, e, cb)
 
 
 def c04_cases(tier, rng):
@@ -145,6 +169,7 @@ def c04_cases(tier, rng):
     rnd = random_inputs(rng, 2500 if tier == "quick" else 30000, 4, 30)
     for (n, e), cb in rotate(rnd, combos, 1, rng):
         yield apply(n, e, cb)
+    yield from nspos_small_budget(tier, rng, 3000 if tier == "quick" else 30000, {})
     # structured families: the block structures that make the positioners iterate (staircases of blocks, ladders,
     # caterpillars, trees, grids, complete bipartite layers) do not occur in small exhaustive or random inputs
     shaped = [K.staircase(k, sf, fan) for k in range(2, 9 if tier == "quick" else 13) for sf in (True, False) for fan in (1, 2)]
@@ -184,7 +209,7 @@ def spline_cases(tier, rng, count):
 
 def c06_cases(tier, rng):
     combos = grid(p1=K.P1S, p2=K.P2S, p4=K.P4_SIZE_AWARE, p5=["straight", "poly", "ortho"],
-                  size=["all", "fixed"], pat=["het", "het2", "odd"], virt=[0, 1])
+                  size=["all", "fixed"], pat=["het", "het2", "odd"], virt=[0, 1], ns=[2, 0, 7])
     inputs = [(n, e) for n, e, r in K.family(fam_E(tier))]
     for (n, e), cb in rotate(inputs, combos, 4 if tier == "quick" else 6, rng):
         yield apply(n, e, cb)
@@ -241,7 +266,7 @@ def c14_cases(tier, rng):
 
 
 def c16_cases(tier, rng):
-    combos = grid(p1=K.P1S, p2=K.P2S, p4=["valign", "pack"], p5=["poly"], virt=[1],
+    combos = grid(p1=K.P1S, p2=K.P2S, p4=["valign", "pack"], p5=["poly", "straight", "ortho", "noop"], virt=[1],
                   size=["all", "fixed", "none"], pat=["het", "het2", "odd", "wide1"], ns=[0, 1, 10])
     inputs = [(n, e) for n, e, r in K.family(fam_E(tier)) if r["conn"] == 1]
     for (n, e), cb in rotate(inputs, combos, 4 if tier == "quick" else 6, rng):
@@ -250,6 +275,11 @@ def c16_cases(tier, rng):
     for (n, e), cb in rotate(rnd, combos, 1, rng):
         yield apply(n, e, cb)
     for (n, e), cb in rotate(shaped_inputs(tier), combos, 4, rng):
+        yield apply(n, e, cb)
+    # the spline router too (its control points can lie left of every node): positive sizes and spacings, where it cannot hang
+    combos_s = grid(p1=K.P1S, p2=K.P2S, p4=["valign", "pack"], p5=["splines"], virt=[1], size=["all", "fixed"], pat=["odd"], ns=[1, 10], ls=[4, 10])
+    sp = random_inputs(rng, 1200 if tier == "quick" else 12000, 3, 10, connected=True, density=1.3, loop_rate=0.02)
+    for (n, e), cb in rotate(sp, combos_s, 1, rng):
         yield apply(n, e, cb)
 
 
@@ -292,7 +322,7 @@ NAME_STYLES = {
 
 def c01_cases(tier, rng):
     axes = dict(p1=["greedy", "greedyrand", "dfs", "dfsrand"], p2=K.P2S, p4=K.P4_ALL, p5=["poly", "straight", "ortho", "noop", "splines"],
-                size=["none", "fixed", "all", "some", "nomap"], pat=["het", "het2", "wide1", "odd"], ns=[0, 1, 10], ls=[0, 1, 10],
+                size=["none", "fixed", "all", "some", "nomap", "fixed+some", "fixed+all", "fixed+zero"], pat=["het", "het2", "wide1", "odd"], ns=[0, 1, 10], ls=[0, 1, 10],
                 thor=[0, 1, -1], virt=[0, 1], names=["plain", "helper", "weird"])
 
     def combo():
@@ -354,6 +384,7 @@ def c12_cases(tier, rng):
     rnd += [K.bipartite(a, b) for a in range(2, 7) for b in range(2, 7)]
     for (n, e), cb in rotate(rnd, combos, 1, rng):
         yield apply(n, e, cb)
+    yield from nspos_small_budget(tier, rng, 4000 if tier == "quick" else 30000, dict(mon=1), simple=True)
     # more than 64 layers, at least two nodes per layer, twisted rungs (forces crossings in the high layers)
     tall = [K.ladder(L, w) for L, w in (((66, 2), (70, 2)) if tier == "quick" else ((66, 2), (70, 2), (70, 3), (100, 2), (130, 3)))]
     for n, e in tall:
